@@ -4,7 +4,7 @@
 
    Programs are kept in declaration-first form (registers, gate definitions, operations); the concrete text is
    produced by the harness one statement per line.
-   Parameter values live in an abstract algebra [VAlg] (the reals of the standard): the semantics only uses the
+   Values of gate parameters live in an abstract algebra [VAlg] (the reals of the standard): the semantics only uses the
    operations, so every theorem holds for every interpretation of + - * / pi and of the literals. *)
 From Coq Require Export String List QArith Bool Arith.
 Export ListNotations.
